@@ -18,7 +18,9 @@ import Driver.BoolCoder
 import Driver.VP8SyntaxBytes
 import Driver.VP8HeaderBytes
 import Driver.VP8ModeBytes
+import Driver.BoolCoderFast
 import Driver.VP8LWindow
+import Driver.VP8LWindow2
 import Driver.VP8Dec
 import Driver.C01Full
 /-
@@ -46,7 +48,9 @@ def dispatch (line : String) : String :=
            <|> Driver.VP8SyntaxBytes.handle op args
            <|> Driver.VP8HeaderBytes.handle op args
            <|> Driver.VP8ModeBytes.handle op args
+           <|> Driver.BoolCoderFast.handle op args
            <|> Driver.VP8LWindow.handle op args
+           <|> Driver.VP8LWindow2.handle op args
            <|> Driver.VP8Dec.handle op args
            <|> Driver.C01Full.handle op args) with
     | some r => r
